@@ -15,7 +15,7 @@ use std::sync::atomic::AtomicU64;
 use std::sync::{Arc, Mutex};
 use std::time::Duration;
 
-use saito_core::core::consensus::block::Block;
+use saito_core::core::consensus::block::{Block, BlockType};
 use saito_core::core::consensus::blockchain::Blockchain;
 use saito_core::core::consensus::mempool::Mempool;
 use saito_core::core::consensus::peers::peer_collection::PeerCollection;
@@ -39,6 +39,7 @@ const ID_FORK: &str = "restart-equal-length-fork";
 const ID_ORPHAN: &str = "restart-replays-block-without-parent";
 const ID_WIPE: &str = "torn-file-discards-later-blocks";
 const ID_BATCH: &str = "undecodable-file-aborts-only-its-batch";
+const ID_FLUSH: &str = "write-value-returns-before-the-data-is-written";
 
 struct Clock(AtomicU64);
 impl KeepTime for Clock {
@@ -47,10 +48,66 @@ impl KeepTime for Clock {
     }
 }
 
+// ------------------------------------------------------------------ the real file-system handler
+
+/// saito-rust/src/rust_io_handler.rs of the checkout under test, compiled into the harness
+/// (extracted by build.rs; see there for the two rewritten `use` lines)
+#[allow(dead_code, unused_imports, unused_variables)]
+mod real_io {
+    /// stand-in for the `lazy_static!` blocks of the included file (same names, same values)
+    macro_rules! lazy_static {
+        ($(pub static ref $name:ident : $t:ty = $e:expr;)*) => {
+            $(pub static $name: std::sync::LazyLock<$t> = std::sync::LazyLock::new(|| $e);)*
+        };
+    }
+    pub mod io_event {
+        use saito_core::core::io::network_event::NetworkEvent;
+        /// saito-rust/src/io_event.rs (same fields)
+        #[derive(Debug)]
+        pub struct IoEvent {
+            pub event_processor_id: u8,
+            pub event_id: u64,
+            pub event: NetworkEvent,
+        }
+        static EVENT_COUNTER: std::sync::atomic::AtomicU64 = std::sync::atomic::AtomicU64::new(0);
+        impl IoEvent {
+            pub fn new(event: NetworkEvent) -> IoEvent {
+                let n = EVENT_COUNTER.fetch_add(1, std::sync::atomic::Ordering::SeqCst) + 1;
+                IoEvent { event_processor_id: 0, event_id: n, event }
+            }
+        }
+    }
+    pub mod rust_io_handler {
+        include!(concat!(env!("OUT_DIR"), "/rust_io_handler.rs"));
+    }
+}
+use real_io::rust_io_handler::RustIOHandler;
+use saito_core::core::io::interface_io::InterfaceIO;
+
+fn real_handler() -> Box<dyn InterfaceIO + Send + Sync> {
+    // the receiving side is only needed for network events, which the storage functions never send
+    let (s, r) = tokio::sync::mpsc::channel(1000);
+    std::mem::forget(r);
+    Box::new(RustIOHandler::new(s, 1))
+}
+
 // ------------------------------------------------------------------ the real restart path
 
 /// Builds a fresh node over `disk` and runs the real `ConsensusThread::on_init`.
 async fn restart_real(params: &Params, key: u8, disk: Arc<Mutex<Disk>>) -> Result<Node, String> {
+    restart_with(params, key, disk, false).await
+}
+
+/// `real_fs`: storage and network sit on the real RustIOHandler (block directory ./data/blocks/ of the
+/// current working directory) instead of the in-memory MemIo
+async fn restart_with(params: &Params, key: u8, disk: Arc<Mutex<Disk>>, real_fs: bool) -> Result<Node, String> {
+    let io = |d: &Arc<Mutex<Disk>>| -> Box<dyn InterfaceIO + Send + Sync> {
+        if real_fs {
+            real_handler()
+        } else {
+            Box::new(MemIo::new(d.clone()))
+        }
+    };
     let (pk, sk) = keypair(key);
     let wallet_lock = Arc::new(RwLock::new(Wallet::new(sk, pk)));
     let blockchain_lock = Arc::new(RwLock::new(Blockchain::new(
@@ -81,13 +138,13 @@ async fn restart_real(params: &Params, key: u8, disk: Arc<Mutex<Disk>>) -> Resul
         block_producing_timer: 0,
         timer: timer.clone(),
         network: Network::new(
-            Box::new(MemIo::new(disk.clone())),
+            io(&disk),
             peers,
             wallet_lock.clone(),
             config_lock.clone(),
             timer,
         ),
-        storage: Storage::new(Box::new(MemIo::new(disk.clone()))),
+        storage: Storage::new(io(&disk)),
         stats: ConsensusStats::new(s_stat.clone()),
         txs_for_mempool: vec![],
         stat_sender: s_stat,
@@ -108,7 +165,7 @@ async fn restart_real(params: &Params, key: u8, disk: Arc<Mutex<Disk>>) -> Resul
         blockchain,
         mempool,
         wallet_lock,
-        storage: Storage::new(Box::new(MemIo::new(disk.clone()))),
+        storage: Storage::new(io(&disk)),
         cfg,
         disk,
         pk,
@@ -206,6 +263,10 @@ struct Mark {
     journal_len: usize,
     snap: Option<ChainSnapshot>,
     supply: u128,
+    /// block directory vs blockchain.blocks after the step (None = they agree)
+    dir_mismatch: Option<String>,
+    /// lowest id in blockchain.blocks
+    min_id: u64,
 }
 
 #[derive(Clone)]
@@ -298,11 +359,100 @@ fn spendable(node: &Node) -> Vec<Slip> {
     v
 }
 
+/// the block directory must hold exactly the files of the blocks in `blockchain.blocks`
+/// (blocks of type Header are never written)
+fn dir_vs_blocks(node: &Node) -> Option<String> {
+    let dir = "./data/blocks/";
+    let d = node.disk.lock().unwrap();
+    let on_disk: BTreeSet<String> = d
+        .files
+        .keys()
+        .filter(|k| k.starts_with(dir) && k.ends_with(".sai"))
+        .map(|k| k[dir.len()..].to_string())
+        .collect();
+    let stored: BTreeSet<String> = node
+        .blockchain
+        .blocks
+        .values()
+        .filter(|b| b.block_type != BlockType::Header)
+        .map(|b| b.get_file_name())
+        .collect();
+    if on_disk == stored {
+        return None;
+    }
+    let ids = |names: Vec<&String>| -> Vec<u64> {
+        names
+            .iter()
+            .filter_map(|n| {
+                let h = name_hash(n);
+                node.blockchain.blocks.get(&h).map(|b| b.id)
+            })
+            .collect()
+    };
+    let extra: Vec<&String> = on_disk.difference(&stored).collect();
+    let missing: Vec<&String> = stored.difference(&on_disk).collect();
+    Some(format!(
+        "{} files on disk belong to no stored block, {} stored blocks (ids {:?}) have no file",
+        extra.len(),
+        missing.len(),
+        ids(missing)
+    ))
+}
+
 async fn record(h: &mut Hist, node: &Node, what: String, class: String) {
     let snap = safe_snapshot(node).ok();
     let supply = if snap.is_some() { supply_of(node) } else { 0 };
     let journal_len = node.disk.lock().unwrap().journal.len();
-    h.marks.push(Mark { what, class, journal_len, snap, supply });
+    let dir_mismatch = dir_vs_blocks(node);
+    let min_id = node.blockchain.blocks.values().map(|b| b.id).min().unwrap_or(0);
+    h.marks.push(Mark { what, class, journal_len, snap, supply, dir_mismatch, min_id });
+}
+
+/// oracles on the RUNNING node, after every step (delivery or clean restart) of a history:
+/// the directory holds exactly the files of blockchain.blocks; while the history is linear the oldest
+/// stored block is the one the purge rule of update_genesis_period leaves (tip - 2 * genesis period + 1)
+fn history_oracles(h: &Hist) -> Vec<String> {
+    let mut f = vec![];
+    let gp = h.params.genesis_period;
+    let mut linear = true;
+    let mut children: BTreeMap<usize, usize> = BTreeMap::new();
+    for m in &h.marks {
+        if let Some(n) = m.what.strip_prefix("deliver ") {
+            if let Ok(i) = n.parse::<usize>() {
+                if let Some(p) = h.blocks[i - 1].parent {
+                    *children.entry(p).or_insert(0) += 1;
+                    if children[&p] > 1 {
+                        linear = false;
+                    }
+                }
+                if m.class != "OnChain" {
+                    linear = false;
+                }
+            }
+        }
+        if let Some(w) = &m.dir_mismatch {
+            f.push(format!("after step '{}' the block directory and blockchain.blocks disagree: {}", m.what, w));
+        }
+        if linear {
+            if let Some(s) = &m.snap {
+                let t = s.tip_id;
+                let expect = if t > 2 * gp { t - 2 * gp + 1 } else { 1 };
+                if m.min_id != expect {
+                    f.push(format!(
+                        "after step '{}' (linear history, tip {}) the oldest stored block has id {} but the purge rule leaves id {}",
+                        m.what, t, m.min_id, expect
+                    ));
+                }
+                if s.genesis_block_id != if t > 2 * gp { t - gp } else { 0 } {
+                    f.push(format!(
+                        "after step '{}' (linear history, tip {}) genesis_block_id is {}",
+                        m.what, t, s.genesis_block_id
+                    ));
+                }
+            }
+        }
+    }
+    f
 }
 
 async fn deliver(h: &mut Hist, node: &mut Node, idx: usize) -> AddClass {
@@ -629,6 +779,12 @@ struct Outcome {
     /// storage operations of the restart itself: (1 = write / 0 = remove, file name)
     ops: Vec<(u64, String)>,
     final_files: Vec<String>,
+    /// blocks left in the mempool queue by on_init
+    queue_len: usize,
+    /// block directory vs blockchain.blocks after the restart
+    dir_mismatch: Option<String>,
+    /// pruned stored blocks that cannot be upgraded to Full from their file
+    upgrade_fail: Vec<String>,
 }
 
 fn run_crash_point(h: &Arc<HistShared>, cp: &CrashPoint, budget: Duration) -> Result<Outcome, String> {
@@ -699,6 +855,9 @@ async fn eval_crash_point(h: &HistShared, cp: &CrashPoint) -> Outcome {
         batch_skipped,
         ops: vec![],
         final_files: vec![],
+        queue_len: 0,
+        dir_mismatch: None,
+        upgrade_fail: vec![],
     };
     let mut node = match restart_real(&h.params, 1, disk.clone()).await {
         Ok(n) => n,
@@ -725,6 +884,8 @@ async fn eval_crash_point(h: &HistShared, cp: &CrashPoint) -> Outcome {
         out.final_files = d.files.keys().cloned().collect();
     }
     out.loaded = node.blockchain.blocks.len();
+    out.queue_len = node.mempool.blocks_queue.len();
+    out.dir_mismatch = dir_vs_blocks(&node);
     {
         // a stored block whose parent is not stored, other than the first block delivered
         // (lowest id, then lowest file name): it was delivered while its parent was unknown
@@ -810,6 +971,31 @@ async fn eval_crash_point(h: &HistShared, cp: &CrashPoint) -> Outcome {
             }
         }
     }
+    // every pruned block the node keeps must be recoverable from its file (downgrade_blockchain_data
+    // drops the transactions, upgrade_block_to_block_type re-reads them)
+    let pruned: Vec<SaitoHash> = node
+        .blockchain
+        .blocks
+        .values()
+        .filter(|b| b.block_type == BlockType::Pruned)
+        .map(|b| b.hash)
+        .collect();
+    for hsh in pruned {
+        let r = futures_catch(AssertUnwindSafe(async {
+            let b = node.blockchain.blocks.get_mut(&hsh).unwrap();
+            let id = b.id;
+            let ok = b.upgrade_block_to_block_type(BlockType::Full, &node.storage, false).await;
+            (id, ok, b.hash == hsh, b.transactions.len())
+        }))
+        .await;
+        match r {
+            Ok((_, true, true, n)) if n > 0 => {}
+            Ok((id, ok, same, n)) => out
+                .upgrade_fail
+                .push(format!("pruned block id {}: upgrade to Full returned {}, hash unchanged {}, {} transactions", id, ok, same, n)),
+            Err(m) => out.upgrade_fail.push(format!("upgrade of a pruned block panicked: {}", m)),
+        }
+    }
     out
 }
 
@@ -862,6 +1048,27 @@ struct Verdict {
     ext_blocked: bool,
 }
 
+/// what kind of failure an oracle reports; the listed findings explain only some kinds
+#[derive(Clone, Copy, PartialEq, Debug)]
+enum Kind {
+    /// restarted tip differs from the tip before a clean shutdown / blocks were lost
+    Tip,
+    /// in-window spendable set differs
+    Utxo,
+    /// supply differs from issuance / from before
+    Supply,
+    /// C03 replay oracle on the restarted node
+    C03,
+    /// stored block set differs at a clean point
+    Blocks,
+    /// a produced block is not accepted
+    Extend,
+    /// tip is a block the node never stored
+    Unknown,
+    /// directory != blockchain.blocks, blocks left in the queue, pruned block not recoverable
+    Storage,
+}
+
 fn judge(ctx: &Ctx, cp: &CrashPoint, out: &Result<Outcome, String>) -> Verdict {
     let h = ctx.h;
     let mut v = Verdict::default();
@@ -899,6 +1106,7 @@ fn judge(ctx: &Ctx, cp: &CrashPoint, out: &Result<Outcome, String>) -> Verdict {
     }
     // ---- tip
     let tip = s.tip_hash;
+    let mut unknown_tip: Option<String> = None;
     if pre_tips.contains(&tip) {
         v.tip_class = "pre-crash-tip";
     } else if tip == [0u8; 32] {
@@ -929,43 +1137,53 @@ fn judge(ctx: &Ctx, cp: &CrashPoint, out: &Result<Outcome, String>) -> Verdict {
         v.tip_class = "other-known-branch";
     } else {
         v.tip_class = "unknown-block";
-        v.failures.push(format!("the restarted tip (id {}) is not a block the node had stored before the crash", s.tip_id));
+        unknown_tip = Some(format!("the restarted tip (id {}) is not a block the node had stored before the crash", s.tip_id));
     }
-    // every failure of a restart that replayed a block while its parent was not stored is
-    // attributed to that listed finding (as C05 does for the orphan branch of add_block)
-    // ... provided the missing parent is explained by one of the listed triggers: its file is on the
-    // crashed disk and decodes (it was rejected when replayed), or it is an invalid block (rejected and
-    // deleted by an earlier restart of this history), or it lies at / below the oldest height on disk
-    // (it was purged: siblings above a purged parent, crash between the deletions of a purge).
-    // A parent missing from the MIDDLE of the stored range is not listed.
-    let min_disk_id = out.disk_blocks.iter().map(|x| x.1).min().unwrap_or(0);
+    // ---- blocks replayed while their parent was not stored (out-of-order branch of add_block).
+    // The listed finding explains this ONLY for these triggers, checked per missing parent:
+    //  (r) the parent's file is on the crashed disk, decodes, was inside a loaded batch, and the restarted
+    //      node does not store it: it was replayed and rejected (invalid sibling replayed first);
+    //  (p) the parent's file was removed by an operation of the journal prefix: it was purged by the running
+    //      node (siblings above a purged parent, crash between the deletions of one purge step) or deleted
+    //      by an earlier restart of this history that had rejected it.
+    // A parent whose file was never written, or that is missing for any other reason, is NOT explained.
+    let complete_ops = if cp.torn.is_some() { cp.k - 1 } else { cp.k };
+    let removed: BTreeSet<SaitoHash> = h.journal[..complete_ops.min(h.journal.len())]
+        .iter()
+        .filter_map(|op| match op {
+            DiskOp::Remove(n) => Some(name_hash(n)),
+            _ => None,
+        })
+        .collect();
+    let stored_now: BTreeSet<SaitoHash> = s.blocks.iter().map(|b| b.0).collect();
     let explained = out.orphan_parents.iter().all(|ph| {
-        out.disk_blocks.iter().any(|x| x.0 == *ph)
-            || ctx
-                .by_hash
-                .get(ph)
-                .map(|i| h.blocks[*i].block.id <= min_disk_id || h.blocks[*i].eff_invalid)
-                .unwrap_or(false)
+        let rejected = out.disk_blocks.iter().any(|x| x.0 == *ph)
+            && !out.batch_skipped.contains(ph)
+            && !stored_now.contains(ph);
+        rejected || removed.contains(ph)
     });
     // listed separately: the parent's file is intact but was never loaded because an undecodable
     // file aborted its batch, while the orphan sits in a later batch
     let batch_gap = !out.orphans.is_empty() && out.orphan_parents.iter().any(|ph| out.batch_skipped.contains(ph));
-    if !out.orphans.is_empty() && !explained {
+    if !out.orphans.is_empty() && !explained && !batch_gap {
         v.failures.push(format!(
-            "blocks with ids {:?} were replayed while their parent was not stored, and the parent is neither a rejected file nor at the purge horizon (oldest id on disk {})",
-            out.orphans, min_disk_id
+            "blocks with ids {:?} were replayed while their parent was not stored, and the parent was neither rejected at this restart nor removed by the journal",
+            out.orphans
         ));
     }
     let orphaned = !out.orphans.is_empty() && explained;
-    // likewise every failure of a node that came up on a competing branch (listed finding): such a
-    // branch can be short and partly purged, so its ledger cannot be the replay of what is stored
     let forked = v.tip_class == "other-known-branch";
-    let mut fail = |v: &mut Verdict, id: Option<&'static str>, w: String| {
-        if batch_gap {
+    // The listed findings explain a wrong tip, a ledger that is not the replay of the stored chain, a
+    // different spendable set, missing supply and a different block set (orphans / batches: rejected files
+    // are deleted; competing branch: it can be longer, so the purge horizon moves).  They do NOT explain an unknown tip, a produced block that is refused, a
+    // directory that disagrees with blockchain.blocks, a non-empty queue or an unrecoverable pruned block.
+    let fail = |v: &mut Verdict, kind: Kind, id: Option<&'static str>, w: String| {
+        let ledger = matches!(kind, Kind::Tip | Kind::Utxo | Kind::Supply | Kind::C03);
+        if batch_gap && (ledger || kind == Kind::Blocks) {
             v.known.push((ID_BATCH, format!("{} (blocks with ids {:?} of a later batch were replayed although the batch holding their parent was aborted)", w, out.orphans)));
-        } else if orphaned {
+        } else if orphaned && (ledger || kind == Kind::Blocks) {
             v.known.push((ID_ORPHAN, format!("{} (blocks with ids {:?} were replayed while their parent was not stored)", w, out.orphans)));
-        } else if forked {
+        } else if forked && (ledger || kind == Kind::Blocks) {
             v.known.push((ID_FORK, format!("{} (the node restarted on a competing branch)", w)));
         } else if let Some(id) = id {
             v.known.push((id, w));
@@ -973,11 +1191,37 @@ fn judge(ctx: &Ctx, cp: &CrashPoint, out: &Result<Outcome, String>) -> Verdict {
             v.failures.push(w);
         }
     };
-    if v.tip_class == "unknown-block" {
-        let w = v.failures.pop().unwrap();
-        fail(&mut v, None, w);
+    if let Some(w) = unknown_tip {
+        fail(&mut v, Kind::Unknown, None, w);
     }
-    // ---- clean shutdown: same tip, same in-window spendable set, same supply
+    // ---- nothing torn: every file on the crashed disk is intact, so nothing that was on disk may be lost
+    // (a child of the restarted tip on the way to a pre-crash tip whose file is on the crashed disk)
+    if cp.torn.is_none() && v.tip_class == "ancestor" {
+        let mut lost_child: Option<u64> = None;
+        for p in &pre_tips {
+            if *p != tip && ctx.is_ancestor_or_self(&tip, p) {
+                let mut cur = ctx.by_hash.get(p).cloned();
+                while let Some(i) = cur {
+                    let par = h.blocks[i].parent;
+                    if par.map(|q| h.blocks[q].block.hash) == Some(tip) {
+                        if out.disk_blocks.iter().any(|x| x.0 == h.blocks[i].block.hash) {
+                            lost_child = Some(h.blocks[i].block.id);
+                        }
+                        break;
+                    }
+                    cur = par;
+                }
+            }
+        }
+        if let Some(id) = lost_child {
+            let w = format!(
+                "no file is torn and the file of block id {} (child of the restarted tip, ancestor of the pre-crash tip) is on disk, yet the node came up on id {}",
+                id, s.tip_id
+            );
+            fail(&mut v, Kind::Tip, None, w);
+        }
+    }
+    // ---- clean shutdown: same tip, same in-window spendable set, same supply, same stored blocks
     if clean {
         if let Some(os) = &after.snap {
             if os.tip_hash != tip {
@@ -989,7 +1233,7 @@ fn judge(ctx: &Ctx, cp: &CrashPoint, out: &Result<Outcome, String>) -> Verdict {
                     "clean restart: tip differs: the node was on block id {} and restarted on block id {} ({})",
                     os.tip_id, s.tip_id, v.tip_class
                 );
-                fail(&mut v, if other_branch { Some(ID_FORK) } else { None }, w);
+                fail(&mut v, Kind::Tip, if other_branch { Some(ID_FORK) } else { None }, w);
             } else {
                 let a = in_window_utxo(os, gp);
                 let b = in_window_utxo(s, gp);
@@ -999,12 +1243,29 @@ fn judge(ctx: &Ctx, cp: &CrashPoint, out: &Result<Outcome, String>) -> Verdict {
                         a.difference(&b).count(),
                         b.difference(&a).count()
                     );
-                    fail(&mut v, None, w);
+                    fail(&mut v, Kind::Utxo, None, w);
                 }
                 if after.supply != out.supply {
                     let w = format!("clean restart: supply {} before, {} after", after.supply, out.supply);
-                    fail(&mut v, None, w);
+                    fail(&mut v, Kind::Supply, None, w);
                 }
+            }
+            // (a never-validated invalid block that the running node kept off chain is legitimately
+            // rejected and dropped when it is replayed)
+            let ob: BTreeSet<(SaitoHash, u64)> = os
+                .blocks
+                .iter()
+                .filter(|b| !ctx.by_hash.get(&b.0).map(|i| h.blocks[*i].eff_invalid).unwrap_or(false) || stored_now.contains(&b.0))
+                .map(|b| (b.0, b.1))
+                .collect();
+            let nb: BTreeSet<(SaitoHash, u64)> = s.blocks.iter().map(|b| (b.0, b.1)).collect();
+            if ob != nb {
+                let w = format!(
+                    "clean restart: stored blocks differ: ids {:?} only before, ids {:?} only after",
+                    ob.difference(&nb).map(|x| x.1).collect::<Vec<_>>(),
+                    nb.difference(&ob).map(|x| x.1).collect::<Vec<_>>()
+                );
+                fail(&mut v, Kind::Blocks, None, w);
             }
         }
     }
@@ -1022,7 +1283,7 @@ fn judge(ctx: &Ctx, cp: &CrashPoint, out: &Result<Outcome, String>) -> Verdict {
                             a.difference(&b).count(),
                             b.difference(&a).count()
                         );
-                        fail(&mut v, None, w);
+                        fail(&mut v, Kind::Utxo, None, w);
                     }
                     break;
                 }
@@ -1031,7 +1292,7 @@ fn judge(ctx: &Ctx, cp: &CrashPoint, out: &Result<Outcome, String>) -> Verdict {
     }
     // ---- valid chain (C03 replay oracle on the restarted node)
     for f in &out.c03 {
-        fail(&mut v, None, format!("restarted chain is not valid: {}", f));
+        fail(&mut v, Kind::C03, None, format!("restarted chain is not valid: {}", f));
     }
     // ---- supply conserved
     if tip != [0u8; 32] && out.supply != h.issued {
@@ -1039,24 +1300,31 @@ fn judge(ctx: &Ctx, cp: &CrashPoint, out: &Result<Outcome, String>) -> Verdict {
             "supply of the restarted node is {} but {} was issued (restarted tip id {}: {}, {} blocks behind)",
             out.supply, h.issued, s.tip_id, v.tip_class, v.lost
         );
-        let id = if v.tip_class == "other-known-branch" {
-            // the node restarted on a competing branch whose window is no longer on disk
-            Some(ID_FORK)
-        } else if v.tip_class == "ancestor" && cp.torn.is_some() && v.lost >= gp {
+        let id = if v.tip_class == "ancestor" && cp.torn.is_some() && v.lost >= gp {
             // a torn file made the node discard at least a whole window of later blocks
             Some(ID_WIPE)
         } else {
             None
         };
-        fail(&mut v, id, w);
+        fail(&mut v, Kind::Supply, id, w);
     }
     // ---- can extend
     if let Some(m) = &out.extend {
         if out.extend_ref_fails {
             v.ext_blocked = true;
         } else {
-            fail(&mut v, None, format!("cannot extend: {}", m));
+            fail(&mut v, Kind::Extend, None, format!("cannot extend: {}", m));
         }
+    }
+    // ---- storage state after the restart
+    if let Some(w) = &out.dir_mismatch {
+        fail(&mut v, Kind::Storage, None, format!("after the restart the block directory and blockchain.blocks disagree: {}", w));
+    }
+    if out.queue_len != 0 {
+        fail(&mut v, Kind::Storage, None, format!("on_init left {} blocks in the mempool queue", out.queue_len));
+    }
+    for w in &out.upgrade_fail {
+        fail(&mut v, Kind::Storage, None, format!("after the restart: {}", w));
     }
     v
 }
@@ -1240,6 +1508,302 @@ async fn batch_gap_history(n: usize, torn_at: usize) -> (Hist, CrashPoint) {
     (h, CrashPoint { k, torn: Some(("inside-header", 100)) })
 }
 
+// ------------------------------------------------------------------ RustIOHandler vs MemIo
+
+/// every regular file below ./data of the current directory: path ("./data/...") -> bytes
+fn real_tree() -> BTreeMap<String, Vec<u8>> {
+    fn walk(dir: &std::path::Path, out: &mut BTreeMap<String, Vec<u8>>) {
+        if let Ok(rd) = std::fs::read_dir(dir) {
+            for e in rd.flatten() {
+                let p = e.path();
+                if p.is_dir() {
+                    walk(&p, out);
+                } else if let Ok(b) = std::fs::read(&p) {
+                    out.insert(format!("./{}", p.to_string_lossy().trim_start_matches("./")), b);
+                }
+            }
+        }
+    }
+    let mut out = BTreeMap::new();
+    walk(std::path::Path::new("./data"), &mut out);
+    out
+}
+
+fn mem_tree(disk: &Arc<Mutex<Disk>>) -> BTreeMap<String, Vec<u8>> {
+    disk.lock().unwrap().files.clone()
+}
+
+fn tree_diff(real: &BTreeMap<String, Vec<u8>>, mem: &BTreeMap<String, Vec<u8>>) -> Option<String> {
+    if real == mem {
+        return None;
+    }
+    let only_real: Vec<&String> = real.keys().filter(|k| !mem.contains_key(*k)).collect();
+    let only_mem: Vec<&String> = mem.keys().filter(|k| !real.contains_key(*k)).collect();
+    let differ: Vec<String> = real
+        .iter()
+        .filter(|(k, v)| mem.get(*k).map(|m| m != *v).unwrap_or(false))
+        .map(|(k, v)| format!("{} ({} bytes on the file system, {} in memory)", k, v.len(), mem[k].len()))
+        .collect();
+    Some(format!("only on the file system {:?}; only in memory {:?}; different content {:?}", only_real, only_mem, differ))
+}
+
+/// compares the real tree with `expect`; RustIOHandler::write_value returns without flushing the tokio
+/// file, so the bytes can arrive after the call has returned (listed finding): the comparison is
+/// repeated for up to half a second.  Returns (difference that remains, number of polls that saw one).
+fn settle_tree(expect: &BTreeMap<String, Vec<u8>>) -> (Option<String>, usize) {
+    let mut polls = 0;
+    loop {
+        // the wallet file (./data/wallet, written by the real save_wallet) is not part of the comparison
+        let mut real = real_tree();
+        real.retain(|k, _| k != "./data/wallet");
+        let d = tree_diff(&real, expect);
+        if d.is_none() || polls >= 100 {
+            return (d, polls);
+        }
+        polls += 1;
+        std::thread::sleep(Duration::from_millis(5));
+    }
+}
+
+const RACED: &str = "RACED: ";
+
+fn wipe_data() {
+    let _ = std::fs::remove_dir_all("./data");
+}
+
+fn kind_of<T>(r: &Result<T, std::io::Error>) -> String {
+    match r {
+        Ok(_) => "ok".to_string(),
+        Err(e) => format!("err:{:?}", e.kind()),
+    }
+}
+
+/// one random sequence of storage calls on the real handler and on MemIo; returns (description, failures)
+async fn io_ops_case(rng: &mut Rng, n_ops: usize) -> (String, Vec<String>) {
+    wipe_data();
+    let disk = Arc::new(Mutex::new(Disk::default()));
+    let mem = MemIo::new(disk.clone());
+    let real = real_handler();
+    let mut names: Vec<String> = (0..6)
+        .map(|i| format!("./data/blocks/{}-{:064x}.sai", 1_000_000 + 100 * rng.below(50), rng.next() as u128 * 7919 + i))
+        .collect();
+    names.push("./data/blocks/readme.txt".to_string());
+    names.push("./data/other/deep/state.bin".to_string());
+    let mut fails = vec![];
+    let mut trace = vec![];
+    let _ = real.ensure_block_directory_exists(real.get_block_dir().as_str());
+    if real.get_block_dir() != mem.get_block_dir() {
+        fails.push(format!("block directory {:?} vs {:?}", real.get_block_dir(), mem.get_block_dir()));
+    }
+    for step in 0..n_ops {
+        let name = rng.pick(&names).clone();
+        let what = match rng.below(10) {
+            0..=3 => {
+                let len = *rng.pick(&[0u64, 1, 388, 389, 390, 700, 2000, 5000]) + rng.below(3);
+                let bytes: Vec<u8> = (0..len).map(|i| (rng.next() as u8) ^ (i as u8)).collect();
+                let a = real.write_value(&name, &bytes).await;
+                let b = mem.write_value(&name, &bytes).await;
+                (format!("write {} bytes to {}", len, name), kind_of(&a), kind_of(&b))
+            }
+            4..=5 => {
+                let a = real.remove_value(&name).await;
+                let b = mem.remove_value(&name).await;
+                (format!("remove {}", name), kind_of(&a), kind_of(&b))
+            }
+            6..=7 => {
+                let a = real.read_value(&name).await;
+                let b = mem.read_value(&name).await;
+                let (ka, kb) = (kind_of(&a), kind_of(&b));
+                let same = match (&a, &b) {
+                    (Ok(x), Ok(y)) => x == y,
+                    _ => true,
+                };
+                if !same {
+                    fails.push(format!("step {}: read {} returns different bytes", step, name));
+                }
+                (format!("read {}", name), ka, kb)
+            }
+            8 => {
+                let a = real.is_existing_file(&name).await;
+                let b = mem.is_existing_file(&name).await;
+                (format!("exists {}", name), a.to_string(), b.to_string())
+            }
+            _ => {
+                let a = real.load_block_file_list().await.map(|mut v| {
+                    v.sort();
+                    v
+                });
+                let b = mem.load_block_file_list().await.map(|mut v| {
+                    v.sort();
+                    v
+                });
+                ("list block files".to_string(), format!("{:?}", a.ok()), format!("{:?}", b.ok()))
+            }
+        };
+        if what.1 != what.2 {
+            fails.push(format!("step {}: {}: file system answers {}, memory {}", step, what.0, what.1, what.2));
+        }
+        let first = tree_diff(&real_tree(), &mem_tree(&disk));
+        if first.is_some() {
+            match settle_tree(&mem_tree(&disk)) {
+                (Some(d), _) => fails.push(format!("step {}: after '{}' the directory trees differ: {}", step, what.0, d)),
+                (None, n) => fails.push(format!(
+                    "{}step {}: '{}' returned before the data was in the file (complete after {} ms): {}",
+                    RACED,
+                    step,
+                    what.0,
+                    n * 5,
+                    first.unwrap()
+                )),
+            }
+        }
+        trace.push(what.0);
+        if fails.iter().filter(|f| !f.starts_with(RACED)).count() > 3 {
+            break;
+        }
+    }
+    (format!("{{\"io_ops\":[{}]}}", trace.iter().map(|t| jstr(t)).collect::<Vec<_>>().join(",")), fails)
+}
+
+/// writes a MemIo disk onto the real file system (the state a crash would leave)
+fn materialise(d: &Disk) {
+    wipe_data();
+    let _ = std::fs::create_dir_all("./data/blocks");
+    // creation order = order in which MemIo lists; the real handler lists by mtime, Storage sorts anyway
+    for name in &d.order {
+        if let Some(bytes) = d.files.get(name) {
+            if let Some(parent) = std::path::Path::new(name).parent() {
+                let _ = std::fs::create_dir_all(parent);
+            }
+            std::fs::write(name, bytes).expect("harness: writing the crashed disk");
+        }
+    }
+}
+
+fn same_state(a: &ChainSnapshot, b: &ChainSnapshot) -> Option<String> {
+    if a.tip_hash != b.tip_hash {
+        return Some(format!("tip id {} vs {}", a.tip_id, b.tip_id));
+    }
+    if a.blocks != b.blocks {
+        return Some("stored blocks / on-chain flags differ".to_string());
+    }
+    if a.utxo != b.utxo {
+        return Some("spendable sets differ".to_string());
+    }
+    if a.lc_index != b.lc_index {
+        return Some("by-height index differs".to_string());
+    }
+    None
+}
+
+/// runs the history `h` (generated on a MemIo node) again on a node whose Storage is the real
+/// RustIOHandler, comparing directory and state after every step, then restarts both kinds of node
+/// from crashed disks.  Returns (case description, failures) per comparison.
+async fn io_node_cases(h: &Hist, hi: &str) -> Vec<(String, Vec<String>)> {
+    let mut cases = vec![];
+    wipe_data();
+    let mut node = Node::new(&h.params, 1);
+    node.storage = Storage::new(real_handler());
+    for m in &h.marks {
+        let mut fails = vec![];
+        if let Some(n) = m.what.strip_prefix("deliver ") {
+            let i: usize = n.parse().unwrap();
+            let r = futures_catch(AssertUnwindSafe(node.add_block(h.blocks[i - 1].block.clone()))).await;
+            let class = match r {
+                Ok(c) => format!("{:?}", c),
+                Err(e) => format!("panic: {}", e),
+            };
+            if class != m.class {
+                fails.push(format!("step '{}' answered {} on the file-system node, {} on the memory node", m.what, class, m.class));
+            }
+        } else {
+            match restart_with(&h.params, 1, node.disk.clone(), true).await {
+                Ok(n2) => node = n2,
+                Err(e) => fails.push(format!("clean restart over the real file system panicked: {}", e)),
+            }
+        }
+        let expect = disk_after(&h.journal, m.journal_len, None);
+        match settle_tree(&expect.files) {
+            (Some(d), _) => fails.push(format!("after step '{}' the real directory differs from the journaled one: {}", m.what, d)),
+            (None, n) if n > 0 => fails.push(format!(
+                "{}step '{}': a block file was still incomplete when add_block / on_init had returned (complete after {} ms)",
+                RACED,
+                m.what,
+                n * 5
+            )),
+            _ => {}
+        }
+        match (safe_snapshot(&node), &m.snap) {
+            (Ok(a), Some(b)) => {
+                if let Some(w) = same_state(&a, b) {
+                    fails.push(format!("after step '{}' the two nodes differ: {}", m.what, w));
+                }
+            }
+            _ => fails.push(format!("after step '{}': no snapshot", m.what)),
+        }
+        let stop = fails.iter().any(|f| !f.starts_with(RACED));
+        cases.push((format!("{{\"io_history\":{},\"step\":{}}}", jstr(hi), jstr(&m.what)), fails));
+        if stop {
+            return cases;
+        }
+    }
+    // crashed disks: every untorn position, and the last two writes torn at every byte class
+    let mut points: Vec<CrashPoint> = (0..=h.journal.len()).map(|k| CrashPoint { k, torn: None }).collect();
+    let writes: Vec<usize> = (1..=h.journal.len()).filter(|k| matches!(h.journal[k - 1], DiskOp::Write(_, _))).collect();
+    for k in writes.iter().rev().take(2) {
+        if let DiskOp::Write(_, bytes) = &h.journal[k - 1] {
+            for tp in tear_points(bytes) {
+                points.push(CrashPoint { k: *k, torn: Some(tp) });
+            }
+        }
+    }
+    for cp in &points {
+        let mut fails = vec![];
+        let d = disk_after(&h.journal, cp.k, cp.torn.map(|t| t.1));
+        materialise(&d);
+        let mem_disk = Arc::new(Mutex::new(d));
+        let a = restart_with(&h.params, 1, Arc::new(Mutex::new(Disk::default())), true).await;
+        let b = restart_with(&h.params, 1, mem_disk.clone(), false).await;
+        match (&a, &b) {
+            (Ok(na), Ok(nb)) => {
+                match (safe_snapshot(na), safe_snapshot(nb)) {
+                    (Ok(sa), Ok(sb)) => {
+                        if let Some(w) = same_state(&sa, &sb) {
+                            fails.push(format!("restart over the real file system and over memory differ: {}", w));
+                        }
+                    }
+                    _ => fails.push("no snapshot after restart".to_string()),
+                }
+                match settle_tree(&mem_tree(&mem_disk)) {
+                    (Some(w), _) => fails.push(format!("directories differ after the restart: {}", w)),
+                    (None, n) if n > 0 => fails.push(format!(
+                        "{}a rewritten block file was still incomplete when on_init had returned (complete after {} ms)",
+                        RACED,
+                        n * 5
+                    )),
+                    _ => {}
+                }
+            }
+            (Err(x), Ok(_)) => fails.push(format!("restart over the real file system panicked: {}", x)),
+            (Ok(_), Err(y)) => fails.push(format!("restart over memory panicked but not over the file system: {}", y)),
+            (Err(_), Err(_)) => {}
+        }
+        cases.push((
+            format!(
+                "{{\"io_history\":{},\"crash_after_ops\":{},\"last_op\":{}}}",
+                jstr(hi),
+                cp.k,
+                match cp.torn {
+                    None => "\"complete\"".to_string(),
+                    Some((c, m)) => format!("{{\"torn\":{},\"bytes_written\":{}}}", jstr(c), m),
+                }
+            ),
+            fails,
+        ));
+    }
+    cases
+}
+
 fn main() {
     verif_harness::common::init_log();
     let args = Args::parse();
@@ -1289,6 +1853,7 @@ fn main() {
     let debug = std::env::var("C12_DEBUG").is_ok();
     let mut coq_cases: Vec<String> = vec![];
     let mut torn_rejected = 0u64;
+    let mut hits_per_hist: BTreeMap<(usize, &'static str), usize> = BTreeMap::new();
     let mut clean_points = 0u64;
     let scripted = scripts();
     let n_script_model = scripted.iter().filter(|x| x.2).count();
@@ -1338,6 +1903,11 @@ fn main() {
         for n in &h.notes {
             summary.notes.push(format!("history {}: {}", hi, n));
         }
+        // oracles on the running node after every step (reported under the first crash point of the history)
+        for w in history_oracles(&h) {
+            summary.oracle_failure(case_no, &w, &format!("{{\"history\":{},\"history_desc\":{}}}", hi, desc));
+        }
+        summary.count("running_node_steps_checked", &format!("{}", (h.marks.len() / 5) * 5));
         // crash points
         let mut points: Vec<CrashPoint> = vec![];
         for k in 0..=h.journal.len() {
@@ -1352,10 +1922,9 @@ fn main() {
         }
         let total_points = points.len();
         if points.len() > per_hist_budget {
-            // keep the final clean point, sample the rest
-            let mut keep: Vec<CrashPoint> = vec![CrashPoint { k: h.journal.len(), torn: None }];
-            let mut rest: Vec<CrashPoint> =
-                points.into_iter().filter(|p| !(p.k == h.journal.len() && p.torn.is_none())).collect();
+            // keep every untorn point (all clean shutdown points and every position between two
+            // operations of a step, in particular around each Remove), sample the torn ones
+            let (mut keep, mut rest): (Vec<CrashPoint>, Vec<CrashPoint>) = points.into_iter().partition(|p| p.torn.is_none());
             while keep.len() < per_hist_budget && !rest.is_empty() {
                 let i = rng.below(rest.len() as u64) as usize;
                 keep.push(rest.swap_remove(i));
@@ -1472,7 +2041,12 @@ fn main() {
                 summary.oracle_failure(case_no, f, &cp_desc);
             }
             for (id, w) in &v.known {
-                summary.known_hit(id, case_no, w);
+                let c = hits_per_hist.entry((hi, *id)).or_insert(0usize);
+                *c += 1;
+                if *c <= 8 {
+                    summary.known_hit(id, case_no, w);
+                }
+                summary.count("known_finding_points", id);
             }
             if model {
                 // model case: Coq's k = number of complete operations
@@ -1583,6 +2157,65 @@ fn main() {
                 case_no += 1;
             }
         }
+    }
+    // ---- the real RustIOHandler (saito-rust/src/rust_io_handler.rs of the checkout under test) against
+    // MemIo, in <work dir of the property>/iodir: random storage-call sequences, whole histories replayed
+    // on a node that persists through the real handler, restarts over materialised crashed disks
+    let mut io_cases = 0usize;
+    let mut io_raced = 0usize;
+    if std::env::var("C12_ONLY").is_err() {
+        std::fs::create_dir_all(&args.out).unwrap();
+        let out_abs = std::fs::canonicalize(&args.out).unwrap();
+        let iodir = out_abs.parent().unwrap_or(&out_abs).join("iodir");
+        let _ = std::fs::remove_dir_all(&iodir);
+        std::fs::create_dir_all(&iodir).unwrap();
+        let old_cwd = std::env::current_dir().unwrap();
+        std::env::set_current_dir(&iodir).unwrap();
+        let mut results: Vec<(&'static str, String, Vec<String>)> = vec![];
+        let (n_seq, n_ops) = if thorough { (12, 150) } else { (4, 80) };
+        for _ in 0..n_seq {
+            let (d, f) = rt.block_on(io_ops_case(&mut rng, n_ops));
+            results.push(("call-sequence", d, f));
+        }
+        for (name, gp, _, actions) in scripts() {
+            if !thorough && !["restart-after-purge", "three-siblings-above-purged-parent", "linear-with-restart"].contains(&name) {
+                continue;
+            }
+            let o = GenOpts { gp, steps: actions.len(), fork_pct: 0, invalid_pct: 0, restart_pct: 0, script: Some(actions) };
+            let h = rt.block_on(gen_history(&mut rng, &o));
+            for (d, f) in rt.block_on(io_node_cases(&h, name)) {
+                results.push(("history-on-real-handler", d, f));
+            }
+        }
+        wipe_data();
+        std::env::set_current_dir(&old_cwd).unwrap();
+        for (kind, d, f) in results {
+            for w in &f {
+                if let Some(r) = w.strip_prefix(RACED) {
+                    if io_raced < 12 {
+                        summary.known_hit(ID_FLUSH, case_no, r);
+                    }
+                    io_raced += 1;
+                } else {
+                    summary.oracle_failure(case_no, &format!("RustIOHandler vs MemIo: {}", w), &d);
+                }
+            }
+            if debug && !f.is_empty() {
+                eprintln!("case {} io {}: {:?}", case_no, kind, f);
+            }
+            summary.count("io_differential", kind);
+            summary.nontrivial += 1;
+            summary.case_descs.push(d);
+            case_no += 1;
+            io_cases += 1;
+        }
+        summary.notes.push(format!(
+            "{} comparisons of the real RustIOHandler ({}) with MemIo under {} ({} of them saw a file that was still incomplete after write_value had returned)",
+            io_cases,
+            real_io::rust_io_handler::RUST_IO_HANDLER_SOURCE,
+            iodir.display(),
+            io_raced
+        ));
     }
     summary.evaluations = case_no as u64;
     summary.notes.push(format!(
